@@ -51,6 +51,18 @@ def _shift(node, dl):
 BLOCK_KEYS = ('t', 'u', 'else', 'dr')
 
 
+def _own_promoted(node, owner):
+    """operands that name a promoted constant of the helper keep pointing at the helper's promoted bodies"""
+    if isinstance(node, dict):
+        if 'promoted' in node and 'powner' not in node:
+            node['powner'] = owner
+        for v in node.values():
+            _own_promoted(v, owner)
+    elif isinstance(node, list):
+        for v in node:
+            _own_promoted(v, owner)
+
+
 def _shift_blocks(term, db):
     for k in BLOCK_KEYS:
         if k in term and isinstance(term[k], int):
@@ -210,6 +222,7 @@ def _inline_async(blocks, locals_, vars_, i, t, cb, co):
         cont, unwind, pdest = pt.get('t'), pt.get('u'), pt.get('dest')
         new_blocks = copy.deepcopy(cbody.raw['blocks'])
         _subst_types(new_blocks, _generic_map(t))
+        _own_promoted(new_blocks, cbody.id)
         for nb in new_blocks:
             _shift(nb['st'], dl)
             nt = nb['term']
@@ -295,6 +308,7 @@ def inlined(fb, body, keep=(), also=None, depth=4, crate=None):
         new_blocks = copy.deepcopy(cb.raw['blocks'])
         gm = _generic_map(t)
         _subst_types(new_blocks, gm)
+        _own_promoted(new_blocks, cb.id)
         locals_[dl:] = [re.sub(r'(?<![\w:])(' + '|'.join(re.escape(k) for k in gm) + r')(?![\w])', lambda mm: gm[mm.group(1)], x) for x in locals_[dl:]] if gm else locals_[dl:]
         for j, nb in enumerate(new_blocks):
             _shift(nb['st'], dl)
